@@ -34,6 +34,8 @@
 #include <fcntl.h>
 #include <errno.h>
 #include <sys/stat.h>
+#include <sys/wait.h>
+#include <signal.h>
 
 #define NSTORE 32
 #define NHANDLE 16
@@ -383,6 +385,18 @@ static void do_open (void)
 	{	char path [512] ; store_path (sid, path, sizeof (path)) ;
 		store_to_file (sid, route == 'e' ? pre : 0, route == 'e' ? post : 0) ;
 		if (route == 'p') handles [h] = sf_open (path, m, &info) ;
+		else if (route == 'q')
+		{	/* non-seekable pipe: a child feeds the file's bytes into the write end */
+			int fds [2] ; if (pipe (fds) != 0) { perror ("pipe") ; exit (3) ; }
+			pid_t pid = fork () ;
+			if (pid == 0)
+			{	close (fds [0]) ; VIO_MEM *st = &stores [sid] ; sf_count_t off = 0 ;
+				while (off < st->len) { ssize_t w = write (fds [1], st->data + off, (size_t) (st->len - off > 4096 ? 4096 : st->len - off)) ; if (w <= 0) break ; off += w ; }
+				close (fds [1]) ; _exit (0) ;
+				}
+			close (fds [1]) ; hfd [h] = fds [0] ;
+			handles [h] = sf_open_fd (fds [0], m, &info, 1) ;
+			}
 		else
 		{	int fd = open (path, mode == 'r' ? O_RDONLY : O_RDWR, 0644) ;
 			if (route == 'e') lseek (fd, pre, SEEK_SET) ;
@@ -428,7 +442,7 @@ static void do_close (void)
 			if (alive) close (hfd [h]) ;
 			hfd [h] = -1 ;
 			} ;
-		file_to_store (hstore [h], hroute [h] == 'e' ? hembed [h] : 0) ;
+		if (hroute [h] != 'q' && hroute [h] != 'e') file_to_store (hstore [h], 0) ;
 		{ char path [512] ; store_path (hstore [h], path, sizeof (path)) ; unlink (path) ; }
 		} ;
 	store_digests (hstore [h], off) ;
@@ -629,6 +643,7 @@ int main (int argc, char **argv)
 {	FILE *in = argc > 1 ? fopen (argv [1], "r") : stdin ;
 	if (! in) { perror ("script") ; return 2 ; }
 	ssize_t len ;
+	signal (SIGCHLD, SIG_IGN) ; signal (SIGPIPE, SIG_IGN) ;
 	if (getenv ("SFDRIVE_TMP")) tmpdir = getenv ("SFDRIVE_TMP") ;
 	mkdir (tmpdir, 0755) ;
 	setvbuf (stdout, NULL, _IOFBF, 1 << 16) ;
